@@ -4,7 +4,7 @@ from __future__ import annotations
 import copy
 import random
 
-from pbv import core, integ, loopsuite, scen, shots
+from pbv import core, lattice, integ, loopsuite, scen, shots
 
 
 def fp(o):
@@ -24,6 +24,7 @@ def run(chk: core.Check, replay=None) -> None:
     core.use_repo()
     thorough = chk.tier == "thorough"
     loopsuite.design(chk, "C12")
+    lattice.replay(chk, "C12", thorough)          # exact spec -> code replay of whole fire() results
     behs = loopsuite.gen_behaviours(chk, 2000 if thorough else 300, chk.seed + 12)
     loopsuite.object_replay(chk, "C12", behs)
     rng = random.Random(chk.seed * 13 + 12)
